@@ -54,6 +54,17 @@ broken translator obligation):
                `D[k]` for the dicts in KEY_DICTS / PAIR_DICTS (tables regenerated by other translator modules) is a
                raising expression (KeyError).  In a `calls:` function `return self.<EFFECT>(...)[.attr]` records the
                call; the reply of the machine (the returned value) is not part of the result.
+  struct     : `struct.pack(fmt, v...)`, `struct.unpack_from(fmt, buf[, off])`, `struct.unpack(fmt, buf)` with a LITERAL
+               format of explicit byte order (`<`, `>`, `!`) and the items `B H I x` (with counts) on byte lists:
+               raising expressions (`struct.error`; exception name "struct.error") - `pyStructPack` checks every
+               value's range and the number of values, the unpack functions the buffer length; the unpacked values
+               must be assigned to a tuple of as many targets (names / attributes).
+               Module-level `NAME = <int literal>` constants of the file (assigned once) are their values.
+  objects    : the parameter declared "obj:..." may have any name when the function is not a method
+               (`_unpack_sdp_into_packet(packet, ...)`); attribute type suffixes: `:b` bool, `:y` bytes, `:o` int or None
+               (tested with `is None` / `is not None` like an optional parameter; assigning a struct value stores
+               `some v`).  Methods and properties are looked up through the single-inheritance chain of classes of
+               the file (`SCPPacket.bytestring` is `SDPPacket.bytestring` with `self.packed_data` = SCPPacket's).
   events     : return type `ev:<t>`: calls of the methods in EVENT_CALLS (`warnings.warn`, `self._parent._perform_read`,
                `self._parent._perform_write`) are recorded, in order, in a list of `PyEvent` (name, integer arguments,
                bytes argument; the arguments of `warn` - a message - are not modelled) that is the LAST component of
@@ -120,6 +131,8 @@ from harness.gen_tables import HEADER
 # param types: "int", "tup2", "tup3", "slice", "optint", "oslice", "list:int", "list:tup2", "list:rec:<attr>,<attr>",
 #              "obj:<attr>,<attr>"
 # return types: "int", "bool", "tup2", "tup3", "optnn", "none", "exc:<t>", "gen:<t>", "calls:<n>"
+SDP_OBJ = "obj:reply_expected:b,tag,dest_port,dest_cpu,src_port,src_cpu,dest_x,dest_y,src_x,src_y,data:y"
+SCP_OBJ = SDP_OBJ + ",cmd_rc,seq,arg1:o,arg2:o,arg3:o"
 FUNCS = [
     ("rig/geometry.py", "to_xyz", ["tup2"], "tup3"),
     ("rig/geometry.py", "minimise_xyz", ["tup3"], "tup3"),
@@ -180,6 +193,11 @@ FUNCS = [
     ("rig/machine_control/scp_connection.py", "SCPConnection.read.packets",
      ["int", "ignored", "buffer_size=int", "x=int", "y=int", "p=int", "address=int"],
      "exc:gen:int,int,int,int,int,int,int"),
+    ("rig/machine_control/packets.py", "SDPPacket.packed_data", [SDP_OBJ], "bytes"),
+    ("rig/machine_control/packets.py", "SDPPacket.bytestring", [SDP_OBJ], "exc:bytes"),
+    ("rig/machine_control/packets.py", "SCPPacket.packed_data", [SCP_OBJ], "exc:bytes"),
+    ("rig/machine_control/packets.py", "SCPPacket.bytestring", [SCP_OBJ], "exc:bytes"),
+    ("rig/machine_control/packets.py", "_unpack_sdp_into_packet", [SDP_OBJ, "bytes"], "exc:none"),
     ("rig/machine_control/machine_controller.py", "MachineController.send_signal", ["obj:", "int", "int"],
      "exc:calls:7"),
     ("rig/machine_control/machine_controller.py", "MachineController.count_cores_in_state", ["obj:", "int", "int"],
@@ -278,6 +296,55 @@ def pyKeyGet (t : List (Nat × Nat)) (k : Int) : Except String Int :=
   else match t.lookup k.toNat with
     | some v => Except.ok (v : Int)
     | none => Except.error "KeyError"
+
+/-- the format characters of the `struct` subset: unsigned byte / 16 bit / 32 bit, pad byte -/
+inductive PyFmt where
+  | B | H | I | x
+  deriving DecidableEq, Repr
+
+def PyFmt.size : PyFmt → Nat
+  | .B => 1 | .H => 2 | .I => 4 | .x => 1
+
+/-- the `k` little-endian bytes of `v` -/
+def pyLeBytes : Nat → Int → List Int
+  | 0, _ => []
+  | k + 1, v => (v % 256) :: pyLeBytes k (v / 256)
+
+/-- the value of little-endian bytes -/
+def pyLeValue : List Int → Int
+  | [] => 0
+  | b :: r => b + 256 * pyLeValue r
+
+/-- `struct.pack(fmt, *vals)` for a format of `B H I x` items with explicit byte order (`big` = `>` / `!`):
+`struct.error` for a value outside the item's range or a wrong number of values -/
+def pyStructPack (big : Bool) : List PyFmt → List Int → Except String (List Int)
+  | [], [] => Except.ok []
+  | PyFmt.x :: fs, vs => (pyStructPack big fs vs).map (fun r => (0 : Int) :: r)
+  | f :: fs, v :: vs =>
+    if 0 ≤ v ∧ v < 256 ^ f.size then
+      (pyStructPack big fs vs).map (fun r => (if big then (pyLeBytes f.size v).reverse else pyLeBytes f.size v) ++ r)
+    else Except.error "struct.error"
+  | _, _ => Except.error "struct.error"
+
+def pyStructSize (fs : List PyFmt) : Nat := (fs.map PyFmt.size).sum
+
+/-- the values of a buffer that is long enough -/
+def pyStructValues (big : Bool) : List PyFmt → List Int → List Int
+  | [], _ => []
+  | PyFmt.x :: fs, b => pyStructValues big fs (b.drop 1)
+  | f :: fs, b =>
+    pyLeValue (if big then (b.take f.size).reverse else b.take f.size) :: pyStructValues big fs (b.drop f.size)
+
+/-- `struct.unpack_from(fmt, buf, off)`: `struct.error` unless `size` bytes are available at the offset (a negative
+offset counts from the end) -/
+def pyStructUnpackFrom (big : Bool) (fs : List PyFmt) (buf : List Int) (off : Int) : Except String (List Int) :=
+  let o : Int := if off < 0 then off + (buf.length : Int) else off
+  if o < 0 ∨ (buf.length : Int) - o < (pyStructSize fs : Int) then Except.error "struct.error"
+  else Except.ok (pyStructValues big fs (buf.drop o.toNat))
+
+/-- `struct.unpack(fmt, buf)`: the buffer must have exactly the size of the format -/
+def pyStructUnpack (big : Bool) (fs : List PyFmt) (buf : List Int) : Except String (List Int) :=
+  if buf.length = pyStructSize fs then Except.ok (pyStructValues big fs buf) else Except.error "struct.error"
 
 /-- Python `int(math.sqrt(n))` (integer square root, exact below 2^52; `ValueError: math domain error` for n < 0) -/
 def pyIsqrt (n : Int) : Except String Int :=
@@ -413,6 +480,9 @@ class Tr(object):
         self.uses_fuel = False
         self.fn = None
         self.nloops = 0
+        self.objname = "self"         # name of the parameter declared "obj:..."
+        self.mro = [cls]              # the class and its base classes (same file), for properties of `self`
+        self.consts = {}              # module-level `NAME = <int literal>` of the file
         self.oracles = []             # results of event calls: extra parameters (name, Lean type)
         self.localfns = {}            # nested `def f(x): return e` -> (parameter names, e)
         self.tmp_ty = {}              # hoisted temporaries -> Lean type
@@ -431,20 +501,28 @@ class Tr(object):
 
     def self_attr(self, n):
         """`self.x`: ("state", lean name) / ("prop", lean call, type) / None"""
-        if not (isinstance(n, ast.Attribute) and isinstance(n.value, ast.Name) and n.value.id == "self"
-                and "self" in self.types):
+        if not (isinstance(n, ast.Attribute) and isinstance(n.value, ast.Name) and n.value.id == self.objname
+                and self.objname in self.types):
             return None
-        if self.types["self"] == "obj":
+        if self.types[self.objname] == "obj":
             if n.attr in self.attrs:
-                return ("state", "self_" + n.attr)
-            qual = "%s.%s" % (self.cls, n.attr)
-            if qual in self.done and self.done[qual][1][:1] == [self.obj_spec] \
-                    and len(self.done[qual][1]) == 1 and not self.done[qual][2] and self.done[qual][0] in ("int", "bool"):
-                # a property translated earlier that reads the same attributes and assigns none:
-                # its value is the first component of the state-passing result
-                return ("prop", "(%s %s).1" % (lean_name(qual), " ".join("self_" + a for a in self.attrs)),
-                        self.done[qual][0])
-            raise NotImplementedError("attribute self.%s is not declared as state" % n.attr)
+                return ("state", self.objname + "_" + n.attr)
+            # a property translated earlier (in this class or a base class) that reads the same attributes and
+            # assigns none: its value is the first component of the state-passing result
+            for c in self.mro:
+                qual = "%s.%s" % (c, n.attr)
+                d = self.done.get(qual)
+                if d is None:
+                    continue
+                rt = d[0][4:] if d[0].startswith("exc:") else d[0]
+                if d[1][:1] == [self.obj_spec] and len(d[1]) == 1 and not d[2] and rt in ("int", "bool", "bytes"):
+                    call = "(%s %s)" % (lean_name(qual), " ".join(self.objname + "_" + a for a in self.attrs))
+                    if d[0].startswith("exc:"):
+                        t = self.raising(call)
+                        self.tmp_ty[t + ".1"] = BASE_TY[rt]
+                        return ("prop", t + ".1", rt)
+                    return ("prop", call + ".1", rt)
+            raise NotImplementedError("attribute %s.%s is not declared as state" % (self.objname, n.attr))
         if self.types["self"] == "int" and self.cls is not None:
             f, t = self.callee(self.cls + "." + n.attr)
             return ("prop", "(%s self)" % f, t)
@@ -453,13 +531,13 @@ class Tr(object):
     def self_method_call(self, n):
         """`self.m()` for a translated method of the same object reading the same attributes"""
         if not (isinstance(n, ast.Call) and isinstance(n.func, ast.Attribute) and isinstance(n.func.value, ast.Name)
-                and n.func.value.id == "self" and self.types.get("self") == "obj" and not n.args and not n.keywords):
+                and n.func.value.id == self.objname and self.types.get(self.objname) == "obj" and not n.args and not n.keywords):
             return None
         qual = "%s.%s" % (self.cls, n.func.attr)
         d = self.done.get(qual)
         if d is None or d[1] != [self.obj_spec] or d[2] or d[0] not in ("int", "bool"):
             return None
-        return "(%s %s).1" % (lean_name(qual), " ".join("self_" + a for a in self.attrs)), d[0]
+        return "(%s %s).1" % (lean_name(qual), " ".join(self.objname + "_" + a for a in self.attrs)), d[0]
 
     def tmp(self):
         self.ntmp += 1
@@ -546,6 +624,11 @@ class Tr(object):
                 and n.attr in ("start", "stop", "step"):
             i = ("start", "stop", "step").index(n.attr)
             return proj(ident(n.value.id), i, 3), ast.dump(n), "%s_%s" % (ident(n.value.id), n.attr)
+        if isinstance(n, ast.Attribute) and isinstance(n.value, ast.Name) and n.value.id == self.objname \
+                and self.types.get(self.objname) == "obj" and n.attr in self.attrs \
+                and self.lty.get(self.objname + "_" + n.attr) == "Option Int":
+            nm = self.objname + "_" + n.attr
+            return nm, ast.dump(n), nm + "_v"
         return None
 
     # ---- types ----------------------------------------------------------------
@@ -557,9 +640,17 @@ class Tr(object):
             return "Bool"
         if isinstance(n, ast.Constant) and isinstance(n.value, bytes):
             return "List Int"
+        if isinstance(n, ast.Call) and self.struct_call(n) is not None:
+            return "List Int"
+        if isinstance(n, ast.Attribute) and isinstance(n.value, ast.Name) and n.value.id == self.objname \
+                and self.types.get(self.objname) == "obj" and n.attr not in self.attrs:
+            for c in self.mro:
+                d = self.done.get("%s.%s" % (c, n.attr))
+                if d is not None:
+                    return lean_ty(d[0][4:] if d[0].startswith("exc:") else d[0])
         if isinstance(n, ast.BinOp) and isinstance(n.op, ast.Add) and self.tyof(n.left).startswith("List "):
             return self.tyof(n.left)
-        sa_ = self.self_attr(n) if isinstance(n, ast.Attribute) and self.types.get("self") == "obj" else None
+        sa_ = self.self_attr(n) if isinstance(n, ast.Attribute) and self.types.get(self.objname) == "obj" else None
         if sa_ is not None and sa_[0] == "state":
             return self.lty[sa_[1]]
         if isinstance(n, (ast.Tuple,)):
@@ -609,6 +700,12 @@ class Tr(object):
             for n in ast.walk(x):
                 if self.is_list_index(n) or self.pair_dict(n) is not None or self.key_dict(n) is not None:
                     return True
+                if isinstance(n, ast.Call) and self.struct_call(n) is not None:
+                    return True
+                if isinstance(n, ast.Attribute) and isinstance(n.value, ast.Name) and n.value.id == self.objname \
+                        and self.types.get(self.objname) == "obj" and n.attr not in self.attrs \
+                        and any(self.done.get("%s.%s" % (c, n.attr), ("",))[0].startswith("exc:") for c in self.mro):
+                    return True
                 if isinstance(n, ast.Call) and isinstance(n.func, ast.Name) and n.func.id == "sqrt":
                     return True
                 if isinstance(n, ast.Call) and isinstance(n.func, ast.Name) and n.func.id in self.localfns \
@@ -632,6 +729,53 @@ class Tr(object):
             return name, n.slice.elts[0], n.slice.elts[1]
         return None
 
+    def struct_call(self, n):
+        """`struct.pack(fmt, ...)` / `struct.unpack_from(fmt, buf[, off])` / `struct.unpack(fmt, buf)` with a literal
+        format -> (kind, big-endian?, items, other args) or None"""
+        if not (isinstance(n, ast.Call) and isinstance(n.func, ast.Attribute) and isinstance(n.func.value, ast.Name)
+                and n.func.value.id == "struct" and "struct" not in self.lty
+                and n.func.attr in ("pack", "unpack", "unpack_from") and n.args and not n.keywords):
+            return None
+        f = n.args[0]
+        if not (isinstance(f, ast.Constant) and isinstance(f.value, (str, bytes))):
+            raise NotImplementedError("struct format that is not a literal")
+        fmt = f.value.decode() if isinstance(f.value, bytes) else f.value
+        if fmt[:1] not in ("<", ">", "!"):
+            raise NotImplementedError("struct format without explicit byte order: " + fmt)
+        items, count = [], ""
+        for ch in fmt[1:]:
+            if ch.isdigit():
+                count += ch
+            elif ch in "BHIx":
+                items += [ch] * (int(count) if count else 1)
+                count = ""
+            elif ch == " ":
+                continue
+            else:
+                raise NotImplementedError("struct format character " + ch)
+        if count:
+            raise NotImplementedError("struct format " + fmt)
+        return n.func.attr, fmt[0] != "<", items, n.args[1:]
+
+    def struct_expr(self, n):
+        """a struct call as a raising expression of type `List Int` (the packed bytes / the unpacked values)"""
+        kind, big, items, args = self.struct_call(n)
+        its = "[" + ", ".join("PyFmt." + c for c in items) + "]"
+        b = "true" if big else "false"
+        if kind == "pack":
+            t = self.raising("(pyStructPack %s %s [%s])" % (b, its, ", ".join(self.e(a) for a in args)))
+        elif kind == "unpack":
+            if len(args) != 1:
+                raise NotImplementedError("struct.unpack arguments")
+            t = self.raising("(pyStructUnpack %s %s %s)" % (b, its, self.e(args[0])))
+        else:
+            if len(args) not in (1, 2):
+                raise NotImplementedError("struct.unpack_from arguments")
+            off = self.e(args[1]) if len(args) == 2 else "(0 : Int)"
+            t = self.raising("(pyStructUnpackFrom %s %s %s %s)" % (b, its, self.e(args[0]), off))
+        self.tmp_ty[t] = "List Int"
+        return t, len([c for c in items if c != "x"])
+
     def key_dict(self, n):
         """`D[k]` / `module.D[k]` for a Nat-keyed, Nat-valued generated table (KEY_DICTS) -> (Lean table, key AST)"""
         if not isinstance(n, ast.Subscript) or isinstance(n.slice, (ast.Slice, ast.Tuple)):
@@ -644,6 +788,10 @@ class Tr(object):
         return None
 
     def e(self, n):
+        if self.struct_call(n) is not None:
+            if self.struct_call(n)[0] != "pack":
+                raise NotImplementedError("struct.unpack outside a tuple assignment")
+            return self.struct_expr(n)[0]
         kd = self.key_dict(n)
         if kd is not None:
             return self.raising("(pyKeyGet %s %s)" % (kd[0], self.e(kd[1])))
@@ -705,6 +853,8 @@ class Tr(object):
                     return self.narrow[ast.dump(n)]
                 raise NotImplementedError("optional `%s` used as a value without an `is None` test" % n.id)
             if ident(n.id) not in self.lty:
+                if n.id in self.consts and n.id not in self.assigned_anywhere_py:
+                    return "(%d : Int)" % self.consts[n.id]        # module-level integer constant
                 raise NotImplementedError("name `%s` is not (definitely) bound here" % n.id)
             return ident(n.id)
         if isinstance(n, ast.Tuple):
@@ -740,6 +890,11 @@ class Tr(object):
         v = self.enum_member(n)
         if v is not None:
             return "(%d : Int)" % v
+        o_ = self.opt_expr(n) if isinstance(n, ast.Attribute) else None
+        if o_ is not None and isinstance(n.value, ast.Name) and n.value.id == self.objname:
+            if o_[1] in self.narrow:
+                return self.narrow[o_[1]]
+            raise NotImplementedError("optional attribute used as a value without an `is None` test: " + n.attr)
         sa = self.self_attr(n)
         if sa is not None:
             if sa[0] == "state":
@@ -1027,6 +1182,8 @@ class Tr(object):
             return [ident(t.id)]
         if isinstance(t, ast.Tuple) and all(isinstance(x, ast.Name) for x in t.elts):
             return [ident(x.id) for x in t.elts]
+        if isinstance(t, ast.Tuple):
+            return [nm for x in t.elts for nm in self.target_names(x)]
         sa = self.self_attr(t)
         if sa is not None and sa[0] == "state":
             return [sa[1]]
@@ -1132,13 +1289,13 @@ class Tr(object):
         """the function's result: the returned value, the final values of the state attributes and (functions
         declared `ev:`) the list of events"""
         base = self.base()
-        comps = ([] if base == "none" else [v]) + ["self_" + a for a in self.attrs] + (["out_"] if self.has_events() else [])
+        comps = ([] if base == "none" else [v]) + [self.objname + "_" + a for a in self.attrs] + (["out_"] if self.has_events() else [])
         if not comps:
             return "()"
         return comps[0] if len(comps) == 1 else "(" + ", ".join(comps) + ")"
 
     def attrs_tuple(self):
-        vs = ["self_" + a for a in self.attrs]
+        vs = [self.objname + "_" + a for a in self.attrs]
         return vs[0] if len(vs) == 1 else "(" + ", ".join(vs) + ")"
 
     def ret_value(self, v):
@@ -1293,6 +1450,26 @@ class Tr(object):
             if tail is not None and not self.loops:
                 raise NotImplementedError("raise in this position")
             return pad + self.exit_with(self.raise_value(s))
+        if isinstance(s, ast.Assign) and len(s.targets) == 1 and isinstance(s.value, ast.Call) \
+                and self.struct_call(s.value) is not None and self.struct_call(s.value)[0] != "pack":
+            # `a, b = struct.unpack_from(...)`: the values are the elements of the unpacked list (its length is that
+            # of the format, `pyStructUnpack*_length`; the defaults of `getD` are never used)
+            tmp, n_vals = self.struct_expr(s.value)
+            t = s.targets[0]
+            names = self.target_names(t)
+            if not isinstance(t, ast.Tuple) or len(names) != n_vals:
+                raise NotImplementedError("unpacking %d struct values into %d targets" % (n_vals, len(names)))
+            text = ""
+            for i, nm in enumerate(names):
+                ty = self.lty.get(nm, "Int")
+                if ty == "Option Int":
+                    text += "%slet %s : Option Int := some (%s.getD %d 0)\n" % (pad, nm, tmp, i)
+                elif ty == "Int":
+                    text += "%slet %s : Int := (%s.getD %d 0)\n" % (pad, nm, tmp, i)
+                    self.lty[nm] = "Int"
+                else:
+                    raise NotImplementedError("struct value assigned to %s : %s" % (nm, ty))
+            return self.seq(pad, text, rest, ind, tail)
         if isinstance(s, ast.Assign) and len(s.targets) == 1:
             t = s.targets[0]
             names = self.target_names(t)
@@ -1316,9 +1493,10 @@ class Tr(object):
             tgt = ast.Attribute(value=s.target.value, attr=s.target.attr, ctx=ast.Load()) \
                 if isinstance(s.target, ast.Attribute) else ast.Name(id=s.target.id, ctx=ast.Load())
             v = ast.BinOp(left=tgt, op=s.op, right=s.value)
+            vty = self.tyof(v)
             val = self.e(v)
-            self.bind(names)
-            text = "%slet %s : Int := %s\n" % (pad, names[0], val)
+            self.bind(names, [vty])
+            text = "%slet %s : %s := %s\n" % (pad, names[0], vty, val)
             return self.seq(pad, text, rest, ind, tail)
         if isinstance(s, ast.If):
             return self.if_stmt(s, rest, ind, tail)
@@ -1377,7 +1555,31 @@ class Tr(object):
         my_pending, self.pending = self.pending, []
         then_narrow = nt is not None and not nt[2]
         else_narrow = nt is not None and nt[2]
-        if self.has_exit([s]):
+        if not self.has_exit([s]) and self.has_raising(s.body + s.orelse) and not self.loops:
+            # no return / raise statement, but a raising EXPRESSION inside a branch: the branches compute
+            # `Except String <tuple of the variables they assign>`, an error leaves the function
+            da = self.definitely_assigned(s.body) & self.definitely_assigned(s.orelse)
+            vs = [v for v in self.assigned([s]) if v in saved_l or v in da]
+            if not vs:
+                raise NotImplementedError("`if` without effect")
+            tup = vs[0] if len(vs) == 1 else "(" + ", ".join(vs) + ")"
+            a = branch(s.body, then_narrow, ind + 2, "(Except.ok %s)" % tup)
+            tys_a = dict(self.lty)
+            b = branch(s.orelse, else_narrow, ind + 2, "(Except.ok %s)" % tup)
+            tys_b = dict(self.lty)
+            self.lty, self.narrow = dict(saved_l), dict(saved_n)
+            for v in vs:
+                ta, tb = tys_a.get(v, saved_l.get(v)), tys_b.get(v, saved_l.get(v))
+                if ta != tb:
+                    raise NotImplementedError("variable %s has different types in the branches of an if" % v)
+                self.lty[v] = ta
+            ety = prod([self.lty[v] for v in vs])
+            text = "%smatch ((%s) : Except String (%s)) with\n%s| Except.error e_ => %s\n%s| Except.ok %s =>\n" % (
+                pad, head(a, b, pad + "  "), ety, pad, self.exit_with("(Except.error e_)"), pad, tup)
+            text += self.block(rest, ind, tail)
+            self.pending = my_pending
+            return self.wrap_pending(pad, text)
+        if self.has_exit([s]) or self.has_raising(s.body + s.orelse):
             if tail is None and not self.loops and self.returns(s.body) and (self.returns(s.orelse) or not s.orelse):
                 a = branch(s.body, then_narrow, ind + 1, None)
                 b = branch(s.orelse if s.orelse else rest, else_narrow, ind + 1, None)
@@ -1688,7 +1890,12 @@ def find_def(tree, rel, qual):
         if len(cs) != 1:
             raise NotImplementedError("%s: %d definitions of class %s" % (rel, len(cs), parts[0]))
         scope, cls = cs[0], parts[0]
-        fn = [n for n in scope.body if isinstance(n, ast.FunctionDef) and n.name == parts[1]]
+        fn = []
+        for cname in class_mro(tree, parts[0]):        # the method may be inherited (single inheritance, same file)
+            c = [n for n in tree.body if isinstance(n, ast.ClassDef) and n.name == cname]
+            fn = [n for n in c[0].body if isinstance(n, ast.FunctionDef) and n.name == parts[1]] if c else []
+            if fn:
+                break
     else:
         fn = [n for n in ast.walk(tree) if isinstance(n, ast.FunctionDef) and n.name == qual]
     if len(fn) != 1:
@@ -1730,20 +1937,24 @@ def translate(repo, rel, fname, ptypes, ret, done=None):
     if len(params) != len(ptypes):
         raise NotImplementedError("%s: parameters %r" % (fname, params))
     local_enums = int_enums(tree)
-    attrs, aty, types, sig, recs, lty, skipped = [], [], {}, [], {}, {}, []
+    attrs, aty, types, sig, recs, lty, skipped, objname = [], [], {}, [], {}, {}, [], "self"
     for p, t in zip(params, ptypes):
         if t.startswith("obj:"):
-            if p != "self" or attrs:
+            if attrs or (p != "self" and cls is not None and not nested_def):
                 raise NotImplementedError("%s: obj parameter %s" % (fname, p))
+            objname = p
             main, _, skip = t[4:].partition(";skip:")
             skipped = [x for x in skip.split(",") if x]
             spec = [x for x in main.split(",") if x]
             attrs = [x.split(":")[0] for x in spec]
-            aty = ["Bool" if x.endswith(":b") else "Int" for x in spec]
+            aty = [{"b": "Bool", "y": "List Int", "o": "Option Int"}.get(x.split(":")[1], None) if ":" in x else "Int"
+                   for x in spec]
+            if None in aty:
+                raise NotImplementedError("%s: attribute type in %s" % (fname, t))
             types[p] = "obj"
-            sig += ["(self_%s : %s)" % (x, ty_) for x, ty_ in zip(attrs, aty)]
+            sig += ["(%s_%s : %s)" % (p, x, ty_) for x, ty_ in zip(attrs, aty)]
             for x, ty_ in zip(attrs, aty):
-                lty["self_" + x] = ty_
+                lty[p + "_" + x] = ty_
         elif t == "ignored":
             types[p] = "ignored"       # a parameter the body must not read (e.g. a parent object that is only stored)
         else:
@@ -1758,6 +1969,9 @@ def translate(repo, rel, fname, ptypes, ret, done=None):
     tr.local_enums = local_enums
     tr.module_enums = module_enums(repo, rel, tree)
     tr.obj_spec = next((t for t in ptypes if t.startswith("obj:")), None)
+    tr.objname = objname
+    tr.mro = class_mro(tree, cls) if cls else [None]
+    tr.consts = dict((k, v) for k, v in module_int_consts(tree).items())
     tr.lty = lty
     tr.ret = ret
     tr.fn = fn
@@ -1856,8 +2070,32 @@ def translate(repo, rel, fname, ptypes, ret, done=None):
 def tr_assigns_attr(n):
     if isinstance(n, (ast.Assign, ast.AugAssign)):
         ts = n.targets if isinstance(n, ast.Assign) else [n.target]
-        return any(isinstance(t, ast.Attribute) and isinstance(t.value, ast.Name) and t.value.id == "self" for t in ts)
+        ts = [x for t in ts for x in (t.elts if isinstance(t, ast.Tuple) else [t])]
+        return any(isinstance(t, ast.Attribute) and isinstance(t.value, ast.Name) for t in ts)
     return False
+
+
+def class_mro(tree, cls):
+    """the class and its (single-inheritance, same file) base classes"""
+    out = [cls]
+    by = dict((c.name, c) for c in tree.body if isinstance(c, ast.ClassDef))
+    while out[-1] in by and len(by[out[-1]].bases) == 1 and isinstance(by[out[-1]].bases[0], ast.Name) \
+            and by[out[-1]].bases[0].id in by:
+        out.append(by[out[-1]].bases[0].id)
+    return out
+
+
+def module_int_consts(tree):
+    out = {}
+    for n in tree.body:
+        if (isinstance(n, ast.Assign) and len(n.targets) == 1 and isinstance(n.targets[0], ast.Name)
+                and isinstance(n.value, ast.Constant) and isinstance(n.value.value, int)
+                and not isinstance(n.value.value, bool)):
+            out[n.targets[0].id] = n.value.value
+    # a name assigned twice is not a constant
+    names = [t.id for n in ast.walk(tree) if isinstance(n, (ast.Assign, ast.AugAssign))
+             for t in (n.targets if isinstance(n, ast.Assign) else [n.target]) if isinstance(t, ast.Name)]
+    return dict((k, v) for k, v in out.items() if names.count(k) == 1)
 
 
 def drop_skipped(stmts, skipped):
